@@ -86,6 +86,18 @@ def corpus():
     cs.append(_spline_case("spline", es, ns, [d], None, None, [[x + 1 / 128 for x in fe9], fn9], 0.5, 0.0))     # square but NOT symmetric
     cs.append(_spline_case("vector", es, ns, [d, d[::-1]], None, None, [[x + 1 / 128 for x in fe9], fn9], 0.5, 4.0))
     cs.append(_spline_case("vector", es, ns, [d, d[::-1]], wts, None, [[x + 1 / 128 for x in fe], fn_], 0.5, 4.0))
+    # families exercised on EVERY run (each was once needed to expose a seeded change)
+    er, nr = es + es[:2], ns + ns[:2]                     # repeated locations, other values, under damping
+    dr = d + [d[0] + 2.5, d[1] - 1.5]
+    cs.append(_spline_case("spline", er, nr, [dr], None, 1e-2, None, 0.5, 0.0))
+    cs.append(_spline_case("spline", er, nr, [dr], [[0.5 + 0.25 * (k % 5) for k in range(len(er))]], 1e-1, None, 0.5, 1.0))
+    cs.append(_spline_case("vector", er, nr, [dr, dr[::-1]], None, 1e-2, None, 0.0, 4.0))
+    for cw in (0.01, 25.0):                               # the same uncertainty everywhere, under damping
+        cs.append(_spline_case("spline", es, ns, [d], [[cw] * 9], 0.5, None, 0.5, 0.0))
+        cs.append(_spline_case("spline", es, ns, [d], [[cw] * 9], 0.5, [[x + 1 / 128 for x in fe], fn_], 0.5, 0.0))
+    cs.append(mk_trend(es, ns, d, [25.0] * 9, 1, "corpus-trend-uniform-weights"))
+    cs.append(mk_trend(es, ns, d, wts[0], 0, "corpus-trend-degree0-weights"))
+    cs.append(_spline_case("spline", es, ns, [d], wts[:1], None, [[x + 1 / 128 for x in fe9], fn9], 0.5, 0.0))     # as many separate forces as data, weighted
     return cs
 
 
